@@ -1890,6 +1890,10 @@ class Pipeline:
             and all(arg in pipeline.defaults for arg in pipeline.root_args(f.output_name))
         }
         between = _find_nodes_between(pipeline.graph, input_nodes, output_nodes, independent)
+        if inputs is not None:
+            # A function whose consumed outputs are all provided as inputs is cut off, even
+            # if it is itself reachable from another provided input.
+            between &= _needed_given_inputs(pipeline.graph, output_nodes, set(inputs))
         drop = [f for f in pipeline.functions if f not in between]
         for f in drop:
             pipeline.drop(f=f)
@@ -2171,6 +2175,28 @@ def _find_nodes_between(
         reachable_to_outputs.update(nx.ancestors(graph, output_node))
     reachable_to_outputs.update(output_nodes)
     return reachable_from_inputs & reachable_to_outputs
+
+
+def _needed_given_inputs(
+    graph: nx.DiGraph,
+    output_nodes: set[Any],
+    provided: set[str],
+) -> set[Any]:
+    """Functions needed for ``output_nodes`` when the values named in ``provided`` are given."""
+    needed: set[Any] = set()
+    stack = list(output_nodes)
+    while stack:
+        node = stack.pop()
+        if node in needed:
+            continue
+        needed.add(node)
+        for pred in graph.predecessors(node):
+            if not isinstance(pred, PipeFunc):
+                continue
+            args = at_least_tuple(graph.edges[pred, node]["arg"])
+            if not all(arg in provided for arg in args):
+                stack.append(pred)
+    return needed
 
 
 @dataclass(frozen=True, slots=True)
